@@ -325,6 +325,17 @@ class Sym:
             self._poly[key] = p
         return p
 
+    def loop_sym(self, local, init):
+        """symbol of a loop-carried local: `loop(init)`; two different locals with the same initial value must not
+        share a symbol (facts about one would be applied to the other), so later ones are numbered `loop#2(init)`"""
+        if not hasattr(self, "_loop_syms"):
+            self._loop_syms = {}
+        ls = self._loop_syms.setdefault(init, [])
+        if local not in ls:
+            ls.append(local)      # first come, first named: deterministic for a given body, never renamed later
+        k = ls.index(local)
+        return "loop(%s)" % init if k == 0 else "loop#%d(%s)" % (k + 1, init)
+
     def set_cases(self, env):
         """case environment {symbol: number | Poly}: every polynomial (hence every canonical name built from one) is
         computed with these symbols replaced; used to split a path into the cases of a branch-defined value"""
@@ -659,7 +670,7 @@ class Sym:
                         return ps[0]
                     rec = [p for p in ps if any("loopvar" in sname for sname in p.syms())]
                     if rec:
-                        return Poly.sym("loop(%s)" % "|".join(sorted(str(p) for p in ps if p not in rec)))
+                        return Poly.sym(self.loop_sym(t[1], "|".join(sorted(str(p) for p in ps if p not in rec))))
                     nm = "phi(%s)" % "|".join(sorted(str(p) for p in ps))
                     self.phis[nm] = ps
                     raw = self.an.terms.defs.whole[t[1]]
@@ -671,7 +682,7 @@ class Sym:
             return Poly.sym(self.name(t))
         if k == "loopval":
             inner = self.poly(t[2][0]) if t[2] else None
-            return Poly.sym("loop(%s)" % (inner if inner is not None else "?"))
+            return Poly.sym(self.loop_sym(t[1], str(inner) if inner is not None else "?"))
         return None
 
     def var_defs(self, l):
